@@ -889,15 +889,47 @@ def run(ctx):
              "library error: a generator consumed by a loop that writes to "
              "the Gfa (reference initialisation) interleaves its checks with "
              "the writes, so a refusal arrives after earlier iterations "
-             "committed", floor=300)
+             "committed", floor=150)
     n_gen = 0
-    for f in sorted(repo.functions.values(), key=lambda f: f.qualname):
+    # the functions a mutation can run: everything the mutation entry points
+    # reach in the resolved call graph (reading a file, which adds its lines
+    # one call at a time, is not one mutation)
+    from .effects_common import program
+    from ..model import FuncInfo, walk_no_nested, record_classes
+    prog = program(repo)
+    line_cls = repo.cls("Line")
+    hdr_cls = repo.cls("line.Header")
+    roots = [gfacls.find_method(n) for n in (
+        "add_line", "rm", "process_line_queue", "_register_line",
+        "_unregister_line")] + \
+        [line_cls.find_method(n) for n in (
+            "connect", "disconnect", "set", "delete", "set_datatype",
+            "_set_existing_field")] + \
+        [hdr_cls.find_method(n) for n in ("add", "_merge")]
+    for c in record_classes(repo):
+        roots.append(c.find_method("_initialize_references"))
+        roots.append(c.find_method("_process_not_unique"))
+    if any(r is None for r in roots[:13]):
+        raise AnalysisError("anchor vanished: a mutation entry point")
+    reach, stack = set(), [r for r in roots if r is not None]
+    while stack:
+        g = stack.pop()
+        if g in reach:
+            continue
+        reach.add(g)
+        for site in prog.sites.get(g, ()):
+            for c in site.callees:
+                if isinstance(c, FuncInfo):
+                    stack.append(c)
+        stack.extend(g.nested.values())
+    for f in sorted(reach, key=lambda f: f.qualname):
         m = f.module.name
+        # (the generators of the value classes and field modules feed
+        # constructors, not loops over the Gfa)
         if not (m.startswith("gfapy.line.") or m.startswith("gfapy.lines.")
                 or m == "gfapy.gfa"):
             continue
         ctx.instance(R)
-        from ..model import walk_no_nested
         is_gen = any(isinstance(n, (ast.Yield, ast.YieldFrom))
                      for n in walk_no_nested(f.node))
         raises = [n for n in walk_no_nested(f.node)
